@@ -288,6 +288,7 @@ type smtScript struct {
 	asserts  []string
 	declared map[string]bool
 	instTerms []string // extra ground terms offered to the goal-directed instantiation
+	witTerms  []string // index terms named by witness(...) hints: candidate witnesses for existential goals
 	boxes    map[Sort]bool
 	lits     map[string]string // string literal -> const name
 	opaque   map[Sort]bool
